@@ -49,7 +49,7 @@ def gen_meta(rng):
     if rng.random() < 0.8:
         m["model"] = rng.choice(["PHSP", "VSS", "HELAMP", "PHOTOS SVS", ""])
     if rng.random() < 0.7:
-        m["model_params"] = rng.choice(["", [1.0, 0.5], ["x", -2.0], None, [0.0]])
+        m["model_params"] = rng.choice(["", [1.0, 0.5], ["x", -2.0], None, [0.0], "1.0 0.5", "dm", [], 0, 2.5, ["only"], {"a": 1}])
     for _ in range(rng.choice([0, 0, 1, 2, 3])):
         m[rng.choice(["note", "src", "tag", "w", "study", "q"])] = gen_json(rng)
     return m
